@@ -98,6 +98,38 @@ def run(ctx, res):
             a, _ = L.impl_lex(L.split_lines(s))
             if a != m:
                 res.diff({'op': 'lex-split', 'source': hx(s)}, a[:160], m[:160])
+    # token counting rules of `stats`: implementation vs model, and vs a count made from the reference lexer's tokens by PICO-8's rule
+    # (every token except `: . ) ] }` symbols and the keywords `local`, `end`; a number with an exponent counts twice)
+    import minutil as M
+    tc_src = [b'x = "end"\n', b's = split(t, ":")\n', b'a = {")", "]", "}", ".", "local", "e"}\n', b"k = 'end' .. [[local]]\n", b'print("1e3")\n',
+              b'y = 1e3 + 0x1e + 0x.e\n', b'local function f(a) return a.b:c(1)[2] end\n', b'::end_::  goto end_\n', b'e = 1 endx = 2 locale = 3\n',
+              b'z = ".":rep(3)\n', b'-- end local\nq = 1 // end\n', b'w = [[)]] .. "}" .. \')\'\n']
+    tc_src += [gen_lua.gen_program(rng)[0] for _ in range(ctx.budget(60, 1500))]
+    tl = ['tokcount ' + L.chunks_arg([s_]) for s_ in tc_src] + ['speclex ' + hx(s_) for s_ in tc_src]
+    tout = ctx.model.run(tl) if ctx.model.available else None
+    for i, s_ in enumerate(tc_src):
+        try:
+            have = M.token_count([s_])
+        except Exception:
+            continue
+        res.evaluations += 1
+        res.count('token-count')
+        res.nontrivial.add((b'tc', s_))
+        if tout is None:
+            continue
+        if tout[i] != 'ok %d' % have and not tout[i].startswith('err'):
+            res.diff({'op': 'tokcount', 'source': hx(s_)}, 'ok %d' % have, tout[i])
+        sp = M.parse_toks(tout[len(tc_src) + i])
+        if sp is not None:
+            want = 0
+            for t in sp:
+                if t[0] in M.TRIVIA:
+                    continue
+                if (t[0] == 'symbol' and t[1] in (b':', b'.', b')', b']', b'}')) or (t[0] == 'keyword' and t[1] in (b'local', b'end')):
+                    continue
+                want += 2 if (t[0] == 'number' and b'e' in t[1]) else 1
+            if want != have:
+                res.fail('C07:token-count:' + hx(s_)[:60], 'stats counts %d tokens, PICO-8\'s rule on the grammar\'s tokens gives %d' % (have, want), {'source': hx(s_)})
     # numeric values: implementation float vs exact rational of the Spec
     nums = [b'0', b'7', b'12.5', b'5.', b'.5', b'1e3', b'1E3', b'1e-3', b'12.5e2', b'.5e1', b'0x10', b'0XfF', b'0x1f.8', b'0X.8', b'0x.08',
             b'0b101', b'0B1', b'0b1.1', b'0b.01', b'0xa.A', b'0xB', b'0xe', b'32767.99', b'0x7fff.ffff']
